@@ -916,8 +916,7 @@ def check_forget_scope(ck, cm: CacheModel):
     per_call = [c for c in fF.calls("forget_call") if A.dotted(A.call_recv(c)) == "self"]
     okF = bool(per_call) and any(isinstance(fF.enclosing(c, ast.For), ast.For) and ("list_mementos" in A.norm(fF.enclosing(c, ast.For).iter)
                                                                                     or "call:list_mementos" in fF.deps(fF.enclosing(c, ast.For).iter)) for c in per_call)
-    ck.ob(R, fF.key(None, "per-call"), okF, "forget_function forgets each memento of exactly this function" if okF else
-          "forget_function does not iterate this function's mementos through forget_call", fF.where())
+    sweep_ok = {}
     # custom metadata (and results) are keyed per call and can exist for calls that have no memento: they go with the
     # function as well, selected by the '<qualified name>/' prefix (terminated, so that f#1 does not take f#10 along)
     for tb in ("metadata", "result"):
@@ -950,11 +949,27 @@ def check_forget_scope(ck, cm: CacheModel):
             return "const:'/'" in d_ and "qualified_name" in {x.split(".")[-1] for x in d_ if x.startswith("attr:")}
         term = bool(sel) and all(_terminated(c, pre) for (c, pre) in sel)
         okT = bool(sel) and bool(rem) and term
+        sweep_ok[tb] = okT
         if tb == "result" and not sel:
             continue  # results are removed per memento by forget_call; a prefix sweep is optional
         ck.ob(R, fF.key(None, "by-prefix:" + tb), okT, "forget_function drops %s entries under '<qualified name>/'" % tb if okT else
               "forget_function leaves %s entries of calls that have no memento (the filesystem backend drops them with the function's directory): "
               "no terminated '<qualified name>/' prefix sweep over self.%s" % (tb, tb), fF.where())
+    # the mementos (and results) of the function go call by call through forget_call -- or all at once: the function's whole
+    # table of mementos is removed on every path and both per-call tables are swept by the terminated prefix
+    if not okF and sweep_ok.get("metadata") and sweep_ok.get("result"):
+        ownF_ = [p_ for p_ in fF.fi.params if p_ != "self"]
+        whole = []
+        for c in fF.calls("pop"):
+            if c.args and self_attr(A.call_recv(c), "mementos") and fF.unconditional(c) and bool(ownF_) and _xt(fF, c.args[0], c) == ownF_[0] + ".qualified_name":
+                whole.append(c)
+        for st in fF.stmts(ast.Delete):
+            if any(isinstance(t, ast.Subscript) and self_attr(t.value, "mementos") and bool(ownF_) and _xt(fF, t.slice, st) == ownF_[0] + ".qualified_name" for t in st.targets):
+                whole.append(st)
+        gone = branch_filter(fF, lambda t, p: (not p) and t.endswith(" in self.mementos"))
+        okF = bool(whole) and fF.cfg.exit not in fF.cfg.reach([fF.cfg.entry], removed=fF.nodes_all(whole), edge_ok=gone)
+    ck.ob(R, fF.key(None, "per-call"), okF, "forget_function forgets each memento of exactly this function" if okF else
+          "forget_function does not iterate this function's mementos through forget_call", fF.where())
 
 
 def _enumerated_fields(ck, cls):
@@ -1070,8 +1085,10 @@ def check_queries_effect_free(ck, rule="C05.R3"):
             for name in ("forget_call", "forget_function"):
                 fa = FA(ck, MEMBACK + "." + name)
                 # a deletion of the outer key: del self.<outer>[k] / self.<outer>.pop(k)
-                removes = [s for s in fa.stmts(ast.Delete) if any(isinstance(t, ast.Subscript) and self_attr(t.value, outer) for t in s.targets)]
-                removes += [c for c in fa.calls("pop") if self_attr(A.call_recv(c), outer)]
+                def is_outer(e, at):
+                    return self_attr(e, outer) or _xt(fa, e, at) == "self." + outer      # named directly or through an alias
+                removes = [s for s in fa.stmts(ast.Delete) if any(isinstance(t, ast.Subscript) and is_outer(t.value, s) for t in s.targets)]
+                removes += [c for c in fa.calls("pop") if A.call_recv(c) is not None and is_outer(A.call_recv(c), c)]
                 delegated = name == "forget_function" and False
                 shell_clear = [c for c in fa.calls("clear") if isinstance(A.call_recv(c), ast.Subscript) and self_attr(A.call_recv(c).value, outer)]
                 ok = bool(removes) and not shell_clear
